@@ -222,6 +222,27 @@ static std::string handle(const std::string& cmd, const std::string& args) {
     return std::string(cif::is_null(s) ? "1" : "0") + " " + (cif::is_text_field(s) ? "1" : "0") + " " +
            as + " " + hex_encode(cif::quote(s));
   }
+  if (cmd == "jnum") {         // a CIF number: what the JSON writer prints for it (quote_numbers = 0), and does sajson take it
+    std::string s = hex_decode(w.at(0));
+    if (!cif::is_numb(s)) return "skip";
+    if (s[0] == '0' && s.size() > 1 && s[1] != '.') return "skip";   // 012 is written as a string, not by write_as_number
+    cif::Document d;
+    d.blocks.emplace_back("q");
+    d.blocks[0].items.emplace_back("_c.t", s);
+    cif::JsonWriteOptions jo = cif::JsonWriteOptions::mmjson();
+    jo.quote_numbers = 0;
+    std::ostringstream os;
+    cif::write_json_to_stream(os, d, jo);
+    std::string json = os.str();
+    size_t a = json.find("\"t\": [");
+    if (a == std::string::npos) return "no-tag " + hex_encode(json);
+    a += 6;
+    size_t e = json.find_first_of("]\n }", a);
+    std::string num = json.substr(a, e == std::string::npos ? std::string::npos : e - a);
+    bool ok = true;
+    try { std::string copy = json; cif::read_mmjson_insitu(&copy[0], copy.size(), "j"); } catch (std::exception&) { ok = false; }
+    return hex_encode(num) + " " + (ok ? "1" : "0");
+  }
   if (cmd == "write") {        // pp compact hash ap al DOM...
     cif::WriteOptions o = read_opts(w, 0);
     cif::Document d = read_dom(w, 5);
